@@ -13,6 +13,7 @@ from props import sched_common
 
 PID = 'C15'
 GENERATORS = [('version2coq.py', 'Gen/VersionGen.v'), ('diff2coq.py', 'Gen/DiffGen.v')]
+EXTRA_CONE = ['Model/StoreIO.v']
 META = {
     'text': 'Theorems over Gallina definitions regenerated on every run from dawgie.Version by a fail-closed ast translator: <= is the lexicographic order, total/transitive/antisymmetric, the six operators and newer() mutually consistent, for all integer triples (unbounded Z). The build half (which algorithms a (re)load schedules) is proved over the scheduler model and tied to schedule.build/_diff by correspondence on generated engines.',
     'note': 'Trusted: Coq kernel; version2coq.py translator (validated each run on every pair over a finite domain incl. literals of the source); CPython int comparison; for the build half the hand-written scheduler model + correspondence driver. No axioms (Print Assumptions: closed).',
@@ -156,3 +157,9 @@ def run(ctx):
 
     # ---- build half ----------------------------------------------------------
     sched_common.c15_build(ctx, okd, msgd, proofs_ok)
+
+    # ---- persisted side: what db.versions() hands to build ----------------------
+    from props import store_common
+    ctx.trust('persisted side: hand model Catalogue.versions of shelve.versions(), tied by the store '
+              'correspondence (real shelve back-end in a temp dir) and an oracle from the registered names')
+    store_common.versions_study(ctx)
